@@ -140,6 +140,36 @@ def run(report: Report, tier, seed):
                      status="discharged" if cond else "refuted", backend=f"enumeration({len(U)}^2 ordered pairs, exhaustive over the universe)",
                      detail=f"for all ordered pairs of the bounded universe ({len(U)} type terms): assignable(a,b) => layout(a) == layout(b) (or b is the generic txn type); {npos} assignable pairs, {enc_checked} checked on encoded values",
                      model=bad[:5] or None))
+    # O19.3: every route to a TypeSpec denotes the same type (a call site compares against the spec parsed from a signature string)
+    from pyteal.ast.abi.util import type_spec_from_algosdk, type_spec_from_annotation, type_specs_from_signature
+    route_bad = []
+    for t in U:
+        s_t = str(t)
+        named = type(t).__name__ == "NamedTupleTypeSpec"
+        routes = {"method signature": lambda: type_specs_from_signature(f"f({s_t})void")[0][0],
+                  "annotation": lambda: type_spec_from_annotation(t.annotation_type()),
+                  "new_instance": lambda: t.new_instance().type_spec()}
+        if layout(t)[0] == "abi":
+            routes["algosdk type object"] = lambda: type_spec_from_algosdk(sabi.ABIType.from_string(s_t))
+        else:
+            routes["type string"] = lambda: type_spec_from_algosdk(s_t)     # plain strings are accepted for reference / transaction types only
+        for rn, f in routes.items():
+            try:
+                got = f()
+            except Exception as e:
+                route_bad.append((s_t, rn, f"raised {type(e).__name__}: {str(e)[:100]}"))
+                continue
+            same = str(got) == s_t and (layout(t)[0] != "abi" or (got.is_dynamic() == t.is_dynamic() and layout(got) == layout(t)))
+            if same and not named and rn in ("annotation", "new_instance") and got != t:
+                same = False
+            if same and layout(t)[0] == "abi" and not (type_spec_is_assignable_to(got, t) and type_spec_is_assignable_to(t, got)):
+                same = False          # e.g. byte[] may come back as the array or the bytes class: same layout, must stay interchangeable
+            if not same:
+                route_bad.append((s_t, rn, f"denotes {got} ({type(got).__name__}, dynamic={got.is_dynamic() if layout(t)[0] == 'abi' else '-'}) instead of {s_t} ({type(t).__name__})"))
+    report.ob(Ob(id="O19.3/type-spec-routes-agree", function="pyteal.ast.abi.util.type_spec_from_algosdk / type_specs_from_signature / type_spec_from_annotation", kind="E",
+                 status="discharged" if not route_bad else "refuted", backend=f"enumeration({len(U)} type terms x up to 5 routes, exhaustive over the universe)",
+                 detail="the spec obtained from the ARC-4 type string, a method signature, the algosdk type object, the annotation and new_instance() is the same type (type string, dynamic-ness, layout, interchangeable under assignability)",
+                 model=route_bad[:5] or None))
     # call sites reject non-assignable arguments (O19.2)
     mism = [(a, b) for a, b in itertools.product(U[:40], U[:40]) if layout(a)[0] == "abi" and layout(b)[0] == "abi" and not accepts(a, b)]
     r.shuffle(mism)
@@ -157,7 +187,26 @@ def run(report: Report, tier, seed):
             pass
         except Exception as e:
             site_bad.append((str(a), str(b), f"call raised {type(e).__name__}: {e}"))
-    report.bounded.append(Bounded(function="SubroutineDefinition.invoke (ABI argument check)", contract="an argument whose type has a different layout is rejected when the call is built",
+    # the same at an inner method call, where the expected type comes from the signature string
+    mk = 0
+    for a, b in mism[: (60 if tier == "quick" else 600)]:
+        mk += 1
+        try:
+            pt.InnerTxnBuilder.MethodCall(app_id=pt.Int(1), method_signature=f"f({b})void", args=[a.new_instance()])
+            site_bad.append((str(a), str(b), "InnerTxnBuilder.MethodCall accepted an argument of a differently shaped type"))
+        except (pt.TealInputError, pt.TealTypeError):
+            pass
+        except Exception as e:
+            site_bad.append((str(a), str(b), f"MethodCall raised {type(e).__name__}: {e}"))
+    # and an argument of exactly the signature's type is accepted
+    for t in [x for x in U if layout(x)[0] == "abi"][:80]:
+        mk += 1
+        try:
+            pt.InnerTxnBuilder.MethodCall(app_id=pt.Int(1), method_signature=f"f({t})void", args=[t.new_instance()])
+        except Exception as e:
+            site_bad.append((str(t), str(t), f"MethodCall rejected an argument of exactly the declared type: {type(e).__name__}: {str(e)[:100]}"))
+    k += mk
+    report.bounded.append(Bounded(function="SubroutineDefinition.invoke / InnerTxnBuilder.MethodCall (ABI argument check)", contract="an argument whose type has a different layout is rejected when the call is built",
                                   bound=f"{k} sampled mismatching pairs (seed {seed})", cases=k, distinct_nontrivial=k, failures=len(site_bad)))
     report.sample({"pair": ["address", "byte[32]"], "assignable": type_spec_is_assignable_to(abi.AddressTypeSpec(), abi.StaticBytesTypeSpec(32))})
     report.extra["explanation"] = "E over a bounded universe of type terms (exhaustive within it), labelled; not a structural-induction proof"
@@ -165,6 +214,8 @@ def run(report: Report, tier, seed):
     for a, b, why in bad[:3]:
         report.violation(Violation(key=f"assignable:{a}->{b}", what=f"{a} -> {b}: {why}", obligation="O19.1/assignable-implies-same-layout",
                                    replay={"a": a, "b": b, "why": why}, confirmed_native=True))
+    for s_t, rn, why in route_bad[:3]:
+        report.violation(Violation(key=f"route:{s_t}:{rn}", what=f"type spec of {s_t} via {rn}: {why}", obligation="O19.3/type-spec-routes-agree", replay={"type": s_t, "route": rn, "why": why}, confirmed_native=True))
     for a, b, why in site_bad[:2]:
         report.violation(Violation(key=f"callsite:{a}->{b}", what=f"{a} passed where {b} expected: {why}", replay={"a": a, "b": b}, confirmed_native=True))
 
